@@ -13,6 +13,7 @@
 package jqgen
 
 import (
+	"fmt"
 	"sort"
 	"strconv"
 	"strings"
@@ -268,6 +269,11 @@ func (g *gen) sp() string {
 		return "\t"
 	case 4:
 		return " # c | ) \"\n"
+	case 5:
+		// the lexer's white space is space, tab, LF and CR; a comment ends at LF or CR
+		// and a backslash continues it over the line break
+		g.use("cr-whitespace")
+		return g.of("\r\n", "\r", " \r\n\t", " # c\r\n", " # c\r", " # c \\\n still ) \" comment\n", " # c \\\r\n still comment\r\n", "\t\r")
 	default:
 		return " "
 	}
@@ -319,7 +325,77 @@ func Quote(s string) string {
 	return sb.String()
 }
 
+// rawPool: strings whose characters the lexer accepts unescaped inside a
+// literal (Full mode spells them raw): line breaks of every kind, C0 controls,
+// NEL, U+2028/2029, non-BMP.
+var rawPool = []string{"a\r\nb", "\r\n", "x\ry", "\r", "l1\nl2", "\n", "x\ty", "\u0001\u001f", "\f\v\b", "a\u0085b", "\u2028\u2029", "😀\r\n𝄞", "\r\n\r\n", "q\r\n\tq", "\u007f\u0080", "é\r\nü"}
+
+// rawQuote renders s as a jq string literal in which the characters the lexer
+// accepts raw are (mostly) left raw.
+func (g *gen) rawQuote(s string) string {
+	var sb strings.Builder
+	sb.WriteByte('"')
+	rs := []rune(s)
+	for i := 0; i < len(rs); i++ {
+		r := rs[i]
+		switch {
+		case r == '"':
+			sb.WriteString(`\"`)
+		case r == '\\':
+			sb.WriteString(`\\`)
+		case r < 0x20 || r == 0x7f || r == 0x85 || r == 0x2028 || r == 0x2029 || r > 0xffff:
+			if g.chance(800) {
+				g.markRaw(rs, i)
+				sb.WriteRune(r)
+			} else if r > 0xffff {
+				sb.WriteRune(r)
+			} else {
+				sb.WriteString(fmt.Sprintf(`\u%04x`, r))
+			}
+		default:
+			sb.WriteRune(r)
+		}
+	}
+	sb.WriteByte('"')
+	return sb.String()
+}
+
+func (g *gen) markRaw(rs []rune, i int) {
+	switch r := rs[i]; {
+	case r == '\r' && i+1 < len(rs) && rs[i+1] == '\n':
+		g.use("raw-crlf-in-string")
+	case r == '\r':
+		g.use("raw-cr-in-string")
+	case r == '\n':
+		g.use("raw-lf-in-string")
+	case r < 0x20 || r == 0x7f:
+		g.use("raw-control-in-string")
+	default:
+		g.use("raw-unicode-in-string")
+	}
+}
+
+// fullStr: Full mode replaces a literal now and then by one with raw characters.
+func (g *gen) fullStr() (string, bool) {
+	if g.cfg.Mode != Full || !g.chance(250) {
+		return "", false
+	}
+	s := rawPool[g.n(len(rawPool))]
+	if !strings.ContainsAny(s, "`") && g.chance(250) {
+		rs := []rune(s)
+		for i := range rs {
+			g.markRaw(rs, i)
+		}
+		g.use("raw-string-literal")
+		return "`" + s + "`", true // fq raw string: everything is raw
+	}
+	return g.rawQuote(s), true
+}
+
 func (g *gen) strLit(pool []string) string {
+	if l, ok := g.fullStr(); ok {
+		return l
+	}
 	s := pool[g.n(len(pool))]
 	if g.cfg.Mode == Full && !strings.ContainsAny(s, "`") && g.chance(120) {
 		return "`" + s + "`" // fq raw string literal
@@ -641,7 +717,11 @@ func (g *gen) render(p *prod, d int, dot Typ) E {
 		case 'S':
 			sb.WriteString(g.strLit(subjectPool))
 		case 'K':
-			sb.WriteString(Quote(keyPool[g.n(len(keyPool))]))
+			if l, ok := g.fullStr(); ok {
+				sb.WriteString(l)
+			} else {
+				sb.WriteString(Quote(keyPool[g.n(len(keyPool))]))
+			}
 		case 'k':
 			sb.WriteString(identKeys[g.n(len(identKeys))])
 		case 'N':
@@ -1143,6 +1223,11 @@ func (g *gen) structural(t Typ, d int, dot Typ) E {
 		n := 1 + g.n(3)
 		for i := 0; i < n; i++ {
 			sb.WriteString(g.of("", "x", " ", "é", "\\n", "\\\"", "a,b", "<&>", "'", "\\\\", "\\u00e9", "%"))
+			if g.cfg.Mode == Full && g.chance(200) {
+				// raw characters between the interpolations
+				q := g.rawQuote(rawPool[g.n(len(rawPool))])
+				sb.WriteString(q[1 : len(q)-1])
+			}
 			x := g.expr(TAny, d-1, dot)
 			sb.WriteString("\\(" + x.S + ")")
 		}
@@ -1646,7 +1731,11 @@ func (g *gen) object(d int, dot Typ) E {
 			k = identKeys[g.n(len(identKeys))]
 			short = g.chance(200)
 		case 2:
-			k = Quote(keyPool[g.n(len(keyPool))])
+			if l, ok := g.fullStr(); ok {
+				k = l
+			} else {
+				k = Quote(keyPool[g.n(len(keyPool))])
+			}
 			short = g.chance(100)
 		case 3:
 			ke := g.expr(TStr, d-1, dot)
